@@ -272,6 +272,47 @@ def h_to_qutip(env, N, r):
         _dense_goals(env, 'second_', res2.value, gs, ps2, r, N)
 
 
+GEN_SETS = {
+    # concrete commuting independent generator lists as token rows (codes 0..3 = I X Y Z, last entry 4 = +, 5 = -)
+    'ghz3_signed': [(1, 1, 1, 4), (3, 3, 0, 5), (0, 3, 3, 4)],
+    'cluster3': [(1, 3, 0, 5), (3, 1, 3, 4), (0, 3, 1, 5)],
+    'product3': [(3, 0, 0, 5), (0, 1, 0, 4), (0, 0, 2, 5)],
+    'bell2': [(1, 1, 5), (3, 3, 4)],
+    'mixed3': [(3, 3, 0, 5), (0, 3, 3, 4)],
+}
+
+
+def h_stabilizer_state_forms(env, which, form, order):
+    """stabilizer_state of a fixed generator list handed over as list / tuple / set / generator / separate PauliList, in
+    several orders: the result is stabilized by every given generator WITH ITS SIGN, has rank N - L and satisfies Inv"""
+    M = Mods(env)
+    rows = list(GEN_SETS[which])
+    rows = rows[order:] + rows[:order]
+    N = len(rows[0]) - 1
+    L = len(rows)
+    desc = [list(r) for r in rows]
+    if form == 'list':
+        arg = lambda: desc
+    elif form == 'tuple':
+        arg = lambda: tuple(tuple(r) for r in rows)
+    elif form == 'set':
+        arg = lambda: set(tuple(r) for r in rows)
+    elif form == 'generator':
+        arg = lambda: (list(r) for r in rows)
+    else:
+        arg = lambda: M.pa.paulis(desc)
+    res = env.run(lambda: M.st.stabilizer_state(arg()))
+    env.goal('no_exception', b_not(res.raised))
+    if res.value is None:
+        return
+    s = res.value
+    inv_goals(env, s.gs, s.ps, s.r, N, None, 'new_')
+    env.goal('rank', eq(s.r, N - L))
+    for k, r in enumerate(rows):
+        g = [v for c in r[:-1] for v in ((1 if c in (1, 2) else 0), (1 if c in (2, 3) else 0))]
+        env.goal('generator%d_with_its_sign_stabilizes' % k, eq(_expect_in_state(s, N, g, 2 * (r[-1] - 4)), 1))
+
+
 def jobs(tier):
     J = []
     for N in (1, 2):
@@ -279,6 +320,12 @@ def jobs(tier):
             J.append(dict(harness=('c12', 'h_duality'), params=dict(N=N, r=r), timeout_s=300, cost=10))
     for r in (None, 2):
         J.append(dict(harness=('c12', 'h_duality'), params=dict(N=3, r=r, family='rotation'), timeout_s=300, cost=10))
+    for which in GEN_SETS:
+        for form in ('list', 'tuple', 'set', 'generator', 'paulilist'):
+            for order in range(len(GEN_SETS[which])):
+                if form in ('tuple', 'generator', 'paulilist') and order:
+                    continue
+                J.append(dict(harness=('c12', 'h_stabilizer_state_forms'), params=dict(which=which, form=form, order=order)))
     for N in (1, 2):
         J.append(dict(harness=('c12', 'h_duality'), params=dict(N=N, r=1, np_rank=True, family='valid' if N == 1 else 'rotation'), timeout_s=300, cost=10))
         J.append(dict(harness=('c12', 'h_random_pauli_state'), params=dict(N=N, r=1, np_rank=True)))
